@@ -60,6 +60,9 @@ struct P {
     i: usize,
     scope: Vec<(String, usize)>,
     n: usize,
+    /// number of `forall` binders seen so far / a `forall` was seen left of an arrow
+    binders: usize,
+    negative: bool,
 }
 
 impl P {
@@ -86,14 +89,20 @@ impl P {
                 self.i += 1;
                 let v = self.fresh();
                 self.scope.push((x, v));
+                self.binders += 1;
             }
             self.eat(Tok::Dot)?;
             let r = self.ty();
             self.scope.truncate(depth);
             return r;
         }
+        let b0 = self.binders;
         let l = self.app()?;
         if self.peek() == Some(&Tok::Arrow) {
+            if self.binders > b0 {
+                // a quantifier in a negative position cannot be floated out: higher-rank type
+                self.negative = true;
+            }
             self.i += 1;
             let r = self.ty()?;
             return Ok(func(l, r));
@@ -190,10 +199,13 @@ impl P {
 }
 
 pub fn parse(text: &str) -> Result<Ty, String> {
-    let mut p = P { t: lex(text)?, i: 0, scope: vec![], n: 0 };
+    let mut p = P { t: lex(text)?, i: 0, scope: vec![], n: 0, binders: 0, negative: false };
     let t = p.ty()?;
     if p.i != p.t.len() {
         return Err(format!("trailing tokens at {}", p.i));
+    }
+    if p.negative {
+        return Ok(ap(c("HigherRank"), t));
     }
     Ok(t)
 }
